@@ -16,6 +16,7 @@ package deploy
 
 import (
 	"context"
+	"strings"
 	"time"
 
 	"github.com/conduitio/conduit/cmd/conduit/api"
@@ -91,15 +92,24 @@ func (s *RemoteService) ApplyPlan(ctx context.Context, desired config.Pipeline, 
 // the exact inverse of pkg/http/api/fromproto.PipelineDocument, which the
 // server-side handler applies to get back the same config.Pipeline this
 // function started from.
+//
+// "Get back the same config.Pipeline" includes the ids: the server-side
+// handler runs config.Enrich over the document, and Enrich is not idempotent —
+// it prefixes every connector id with "<pipeline id>:" and every processor id
+// with "<parent id>:". in was already enriched by ParseSinglePipeline, so the
+// wire document carries the ids as written in the file (prefix removed);
+// otherwise the live server would plan connectors "p:p:src" for the same file
+// the standalone path, start-up provisioning and the dev watcher all read as
+// "p:src" — deleting and recreating every connector and processor.
 func pipelineDocument(in config.Pipeline) *apiv1.PipelineDocument {
 	connectors := make([]*apiv1.PipelineDocument_Connector, len(in.Connectors))
 	for i, c := range in.Connectors {
 		processors := make([]*apiv1.PipelineDocument_Processor, len(c.Processors))
 		for j, p := range c.Processors {
-			processors[j] = pipelineDocumentProcessor(p)
+			processors[j] = pipelineDocumentProcessor(p, c.ID)
 		}
 		connectors[i] = &apiv1.PipelineDocument_Connector{
-			Id:         c.ID,
+			Id:         strings.TrimPrefix(c.ID, in.ID+":"),
 			Type:       c.Type,
 			Plugin:     c.Plugin,
 			Name:       c.Name,
@@ -110,7 +120,7 @@ func pipelineDocument(in config.Pipeline) *apiv1.PipelineDocument {
 
 	processors := make([]*apiv1.PipelineDocument_Processor, len(in.Processors))
 	for i, p := range in.Processors {
-		processors[i] = pipelineDocumentProcessor(p)
+		processors[i] = pipelineDocumentProcessor(p, in.ID)
 	}
 
 	var dlq *apiv1.PipelineDocument_DLQ
@@ -138,9 +148,11 @@ func pipelineDocument(in config.Pipeline) *apiv1.PipelineDocument {
 	}
 }
 
-func pipelineDocumentProcessor(in config.Processor) *apiv1.PipelineDocument_Processor {
+// pipelineDocumentProcessor converts in, whose enriched id is prefixed with
+// parentID (the enriched id of the pipeline or connector it is attached to).
+func pipelineDocumentProcessor(in config.Processor, parentID string) *apiv1.PipelineDocument_Processor {
 	return &apiv1.PipelineDocument_Processor{
-		Id:        in.ID,
+		Id:        strings.TrimPrefix(in.ID, parentID+":"),
 		Plugin:    in.Plugin,
 		Settings:  in.Settings,
 		Workers:   int32(in.Workers), //nolint:gosec // no risk of overflow, already-validated config
